@@ -630,3 +630,118 @@ Proof.
   - intros H. cbn [cur] in H. discriminate.
   - exact I.
 Qed.
+
+Definition sender_part (s : state) := (cur s, sendq s).
+
+Lemma do_next_sender s : sender_part (do_next s) = sender_part s.
+Proof.
+  unfold do_next. destruct (blocked s); [reflexivity|].
+  destruct (q_take inq_pop (inq s)) as [[[c r] rest]|]; [|reflexivity]. destruct r; reflexivity.
+Qed.
+
+Lemma thunks_sender batch : forall s, sender_part (fold_left run_thunk batch s) = sender_part s.
+Proof.
+  induction batch as [|t b IH]; intros s; cbn [fold_left]; [reflexivity|].
+  rewrite IH. destruct t; apply do_next_sender.
+Qed.
+
+Lemma sinv_of_sender s s' : sender_part s' = sender_part s -> SInv s -> SInv s'.
+Proof. unfold sender_part, SInv. intros E I H. inversion E as [[E1 E2]]. rewrite E2. apply I. congruence. Qed.
+
+Lemma step_sinv s o : SInv s -> SInv (step s o).
+Proof.
+  intros I. destruct o; cbn [step].
+  - apply issue_sinv; exact I.
+  - apply release_sinv; exact I.
+  - apply (sinv_of_sender s); [|exact I]. unfold deliver. destruct (wire s); [reflexivity|]. destruct (cfate c); reflexivity.
+  - apply (sinv_of_sender s); [|exact I]. unfold gift_ready. destruct (find _ _); reflexivity.
+  - apply (sinv_of_sender s); [|exact I]. unfold turn. rewrite thunks_sender. reflexivity.
+Qed.
+
+Lemma run_from_sinv ops : forall s, SInv s -> SInv (fold_left step ops s).
+Proof. induction ops as [|o ops IH]; intros s I; cbn [fold_left]; [exact I|]. apply IH, step_sinv, I. Qed.
+
+(* whenever no call is being serialized, the send queue is empty: a queued call is never left behind *)
+Theorem sender_never_idle_with_work ops : cur (run ops) = None -> sendq (run ops) = [].
+Proof. apply (run_from_sinv ops init). intros _. reflexivity. Qed.
+
+(* ------------------------------------------------------------------ *)
+(* progress: once the sender is done and the receiver's queue is drained by enough turns, every call that was
+   not refused has been entered.  One turn on a state whose eventual queue holds a doNextCall finishes the
+   head of the inbound queue when that head is ready. *)
+
+Lemma turn_enters_ready_head s c rest :
+  waiting s = [] -> inq s = (c, Ready) :: rest -> evq s <> [] -> is_late c = false ->
+  In (cid c) (entered (turn s)).
+Proof.
+  intros Ew Ei Ev Hl. unfold turn. destruct evq_is_fifo as [_ ->].
+  destruct (evq s) as [|t b]; [congruence|]. destruct t. cbn [fold_left run_thunk].
+  set (s0 := mk _ _ _ _ _ _ _ _).
+  assert (E : In (cid c) (entered (do_next s0))).
+  { unfold do_next, blocked. rewrite hol_is_blocking. subst s0. cbn [waiting inq]. rewrite Ew. cbn [is_nil negb].
+    rewrite inq_take, Ei. unfold finish_call, entered. cbn [trace]. rewrite Hl. cbn [andb negb entered_of].
+    apply in_or_app; right; left; reflexivity. }
+  clearbody s0. revert E. generalize (do_next s0). clear.
+  induction b as [|t b IH]; intros s E; cbn [fold_left]; [exact E|].
+  apply IH. destruct t; cbn [run_thunk]. unfold entered in *.
+  unfold do_next. destruct (blocked s); [exact E|].
+  destruct (q_take inq_pop (inq s)) as [[[c' r] rest]|]; [|exact E].
+  destruct r; unfold finish_call; cbn [trace]; try exact E;
+    destruct (_ && _); cbn [entered_of]; try exact E; apply in_or_app; left; exact E.
+Qed.
+
+(* ------------------------------------------------------------------ *)
+(* LocalReferenceable: order is given by the eventual queue alone *)
+
+Definition LInv (s : lstate) : Prop := l_entered s ++ l_evq s = seq 0 (l_next s).
+
+Lemma lstep_inv s o : LInv s -> LInv (lstep s o).
+Proof.
+  unfold LInv. intros I. destruct evq_is_fifo as [Hp Hi]. destruct o; cbn [lstep l_entered l_evq l_next].
+  - rewrite Hp. cbn [q_put]. rewrite app_assoc, I, seq_S. reflexivity.
+  - rewrite Hi, app_nil_r. exact I.
+Qed.
+
+Lemma lrun_from_inv ops : forall s, LInv s -> LInv (fold_left lstep ops s).
+Proof. induction ops as [|o ops IH]; intros s I; cbn [fold_left]; [exact I|]. apply IH, lstep_inv, I. Qed.
+
+Theorem local_calls_in_order ops :
+  l_entered (lrun ops) ++ l_evq (lrun ops) = seq 0 (l_next (lrun ops)).
+Proof. apply (lrun_from_inv ops). reflexivity. Qed.
+
+Corollary local_entered_prefix ops : sublist (l_entered (lrun ops)) (seq 0 (l_next (lrun ops))).
+Proof. rewrite <- local_calls_in_order. apply sublist_app_l. Qed.
+
+(* ------------------------------------------------------------------ *)
+(* non-vacuity *)
+
+(* the regression witness of defect D1: one call pauses mid-argument, three more are issued meanwhile *)
+Example d1_witness :
+  entered (run [Issue 1 FPlain; Issue 0 FPlain; Issue 0 FPlain; Issue 0 FPlain; StallRelease;
+                Deliver; Deliver; Deliver; Deliver; Turn]) = [0; 1; 2; 3].
+Proof. vm_compute. reflexivity. Qed.
+
+(* a call blocked behind a gift, an early and a late refusal: the hypotheses of head_of_line are met *)
+Definition hol_example : list op :=
+  [Issue 0 FGift; Issue 0 FRejectEarly; Issue 0 FRejectLate; Issue 2 FPlain; StallRelease; StallRelease;
+   Deliver; Deliver; Deliver; Deliver; Turn; Turn; GiftReady 0 true; Turn; Turn].
+
+Example hol_example_history :
+  history (run hol_example) =
+  [Queued 0; Rejected 1; Queued 2; Queued 3; Entered 0; Failed 2; Entered 3].
+Proof. vm_compute. reflexivity. Qed.
+
+Example hol_example_applies :
+  exists before after, history (run hol_example) = before ++ Entered 3 :: after /\
+                       In (Queued 2) (history (run hol_example)) /\ 2 < 3 /\ In (Failed 2) before.
+Proof.
+  exists [Queued 0; Rejected 1; Queued 2; Queued 3; Entered 0; Failed 2], [].
+  rewrite hol_example_history. cbn. intuition.
+Qed.
+
+Example waiting_is_reached :
+  waiting (run [Issue 0 FGift; Deliver; Turn]) = [{| cid := 0; stalls := 0; cfate := FGift |}].
+Proof. vm_compute. reflexivity. Qed.
+
+Example local_example : l_entered (lrun [LIssue; LIssue; LTurn; LIssue; LTurn]) = [0; 1; 2].
+Proof. vm_compute. reflexivity. Qed.
